@@ -38,21 +38,23 @@ func (self *BinaryConv) do(ctx context.Context, src []byte, desc *thrift.TypeDes
 	rt.GuardSlice(buf, len(src)*_GUARD_SLICE_FACTOR)
 
 	if self.opts.EnableThriftBase {
-		if f := desc.Struct().GetRequestBase(); f != nil {
-			if err := self.writeRequestBaseToThrift(ctx, buf, f); err != nil {
-				return err
+		// only a struct can carry a base; the root descriptor may be a list, map or scalar
+		if st := desc.Struct(); st != nil {
+			if f := st.GetRequestBase(); f != nil {
+				if err := self.writeRequestBaseToThrift(ctx, buf, f); err != nil {
+					return err
+				}
 			}
 		}
 	}
 
 	if len(src) == 0 {
 		// empty body
-		if self.opts.EnableHttpMapping && req != nil {
-			st := desc.Struct()
+		if st := desc.Struct(); st != nil && self.opts.EnableHttpMapping && req != nil {
 			var reqs = thrift.NewRequiresBitmap()
 			st.Requires().CopyTo(reqs)
 			// check if any http-mapping exists
-			if desc.Struct().HttpMappingFields() != nil {
+			if st.HttpMappingFields() != nil {
 				if err := self.handleHttpMappings(ctx, req, st, *reqs, buf, true, true); err != nil {
 					return err
 				}
